@@ -244,6 +244,12 @@ enum Framing {
     OldHuge(usize),
     /// partial body: first chunk declares 2^30, data ends early
     PartialHuge,
+    /// partial body: a genuine first chunk of 512 octets, then a continuation header declaring
+    /// 2^(16 + 2i) octets (i = 0..7) over the short rest
+    PartialThenHuge(usize),
+    /// partial body: a genuine first chunk of 512 octets, then a five-octet final length declaring
+    /// `DECLARED[i]` over the short rest
+    PartialThenFinalHuge(usize),
 }
 
 fn frame(tag: u8, body: &[u8], f: Framing) -> Vec<u8> {
@@ -267,6 +273,28 @@ fn frame(tag: u8, body: &[u8], f: Framing) -> Vec<u8> {
         Framing::PartialHuge => {
             let mut v = vec![0xC0 | tag, 224 + 30];
             v.extend_from_slice(body);
+            v
+        }
+        Framing::PartialThenHuge(_) | Framing::PartialThenFinalHuge(_) => {
+            // partial lengths are for data packets; the first chunk must carry 512 real octets
+            if !matches!(tag, 8 | 9 | 11 | 18 | 20) {
+                return frame(tag, body, Framing::Accurate);
+            }
+            let mut b = body.to_vec();
+            if b.len() < 600 {
+                b.resize(600, 0x41);
+            }
+            let mut v = vec![0xC0 | tag, 224 + 9];
+            v.extend_from_slice(&b[..512]);
+            match f {
+                Framing::PartialThenHuge(i) => v.push(224 + (16 + 2 * (i as u8 % 8)).min(30)),
+                Framing::PartialThenFinalHuge(i) => {
+                    v.push(0xff);
+                    v.extend_from_slice(&(DECLARED[i % DECLARED.len()] as u32).to_be_bytes());
+                }
+                _ => {}
+            }
+            v.extend_from_slice(&b[512..]);
             v
         }
     }
@@ -358,16 +386,18 @@ fn declared_random_case(t: &mut Tape, rec: &mut Rec) -> CaseResult {
         4 => Tail::KeepFiller(*t.pick(&[1500usize, 5000])),
         _ => Tail::Filler(*t.pick(&[2000usize, 9000, 70_000])),
     };
-    let framing = match t.below(8) {
+    let framing = match t.below(10) {
         0 => Framing::NewHuge(t.below(DECLARED.len())),
         1 => Framing::OldHuge(t.below(DECLARED.len())),
         2 => Framing::PartialHuge,
+        3 => Framing::PartialThenHuge(t.below(8)),
+        4 => Framing::PartialThenFinalHuge(t.below(DECLARED.len())),
         _ => Framing::Accurate,
     };
     rec.label(format!("tag{}", base.tag));
     rec.label(format!("width{width}"));
     rec.label(format!("{}", match tail { Tail::Keep => "tail:keep", Tail::Cut => "tail:cut", Tail::Filler(n) if n > 1024 => "tail:filler>1024", Tail::Filler(_) => "tail:filler<=1024", Tail::KeepFiller(_) => "tail:keep+filler" }));
-    rec.label(format!("{}", match framing { Framing::Accurate => "framing:accurate", Framing::NewHuge(_) => "framing:new-huge", Framing::OldHuge(_) => "framing:old-huge", Framing::PartialHuge => "framing:partial-huge" }));
+    rec.label(format!("{}", match framing { Framing::Accurate => "framing:accurate", Framing::NewHuge(_) => "framing:new-huge", Framing::OldHuge(_) => "framing:old-huge", Framing::PartialHuge => "framing:partial-huge", Framing::PartialThenHuge(_) => "framing:partial-continuation-huge", Framing::PartialThenFinalHuge(_) => "framing:partial-final-huge" }));
     rec.nontrivial((base.tag, base.body.clone(), pos, width, val, tail, framing));
     declared_case_inner(rec, &base, pos, width, val, tail, framing, t.u64())
 }
@@ -460,7 +490,14 @@ fn declared_sweep_case(t: &mut Tape, rec: &mut Rec, plan: &Sweep, stride: usize)
     let tail = SWEEP_TAILS[(local % per_pos) as usize % SWEEP_TAILS.len()];
     rec.label(format!("sweep:tag{}", base.tag));
     rec.nontrivial((bi, pos, width, tail));
-    declared_case_inner(rec, base, pos, width, 0xffff_ffff, tail, Framing::Accurate, idx)
+    declared_case_inner(rec, base, pos, width, 0xffff_ffff, tail, Framing::Accurate, idx)?;
+    // data packets additionally under partial framings whose *later* length headers declare a lot
+    if matches!(base.tag, 8 | 9 | 11 | 18 | 20) && pos == 0 {
+        for f in [Framing::PartialThenHuge(local as usize % 8), Framing::PartialThenFinalHuge(local as usize % DECLARED.len())] {
+            declared_case_inner(rec, base, pos, 1, base.body.first().copied().unwrap_or(0) as u64, Tail::Keep, f, idx)?;
+        }
+    }
+    Ok(())
 }
 
 // ---------------------------------------------------------------------------------------------
@@ -993,7 +1030,7 @@ fn iterated_case(t: &mut Tape, rec: &mut Rec) -> CaseResult {
 }
 
 pub fn run(ctx: &Ctx) {
-    ctx.set_rule("every case runs in a worker process under a counting allocator (peak live bytes, bytes allocated in total, number and largest of requests; single requests above 1 GiB are refused and show as a failed allocation of the case); (a) declared-but-absent: a generated or harvested packet body, one 1/2/4/5-octet field at a drawn (sweep: every) offset set to 2^16..2^32-1, the rest kept, cut, or replaced by 100..70000 filler bytes, framed accurately or under a five-octet / legacy four-octet / partial length that declares up to 2^32-1; oracle peak <= 192 KiB + 8 x supplied (6 MiB constant where a decompressor runs), largest request <= 96 KiB + 4 x supplied, total <= 2 MiB + 64 x supplied; (b) scaling families measured at n and 2n: total bytes and allocation count grow no faster than the input x1.3, object-returning entry points peak grows no faster than the input x1.3 and stays <= 64 x input + 1 MiB, streaming ones do not grow (+64 KiB); (c) messages of two sizes built from a generated source into a pre-sized sink and read back: peak independent of size (+256 KiB) for literal/compressed/signed/armored/SEIPDv2/SEIPDv1-streaming, SEIPDv1 CheckFirst refuses messages above max_message_size after buffering <= 2.5 x limit + 1 MiB; (d) Argon2: every (t,p) with the listed m values classified by the documented ceiling, beyond => Err with < 64 KiB allocated, cheap settings within => Ok with peak <= 1.1 x 2^m KiB; iterated S2K: every count octet, allocation independent of count and password length; non-trivial = artifact measured; distinct = (base, field, value, tail, framing) / (family, n) / configuration");
+    ctx.set_rule("every case runs in a worker process under a counting allocator (peak live bytes, bytes allocated in total, number and largest of requests; single requests above 1 GiB are refused and show as a failed allocation of the case); (a) declared-but-absent: a generated or harvested packet body, one 1/2/4/5-octet field at a drawn (sweep: every) offset set to 2^16..2^32-1, the rest kept, cut, or replaced by 100..70000 filler bytes, framed accurately or under a five-octet / legacy four-octet / first partial / continuation partial / final-after-partial length that declares up to 2^32-1; oracle peak <= 192 KiB + 8 x supplied (6 MiB constant where a decompressor runs), largest request <= 96 KiB + 4 x supplied, total <= 2 MiB + 64 x supplied; (b) scaling families measured at n and 2n: total bytes and allocation count grow no faster than the input x1.3, object-returning entry points peak grows no faster than the input x1.3 and stays <= 64 x input + 1 MiB, streaming ones do not grow (+64 KiB); (c) messages of two sizes built from a generated source into a pre-sized sink and read back: peak independent of size (+256 KiB) for literal/compressed/signed/armored/SEIPDv2/SEIPDv1-streaming, SEIPDv1 CheckFirst refuses messages above max_message_size after buffering <= 2.5 x limit + 1 MiB; (d) Argon2: every (t,p) with the listed m values classified by the documented ceiling, beyond => Err with < 64 KiB allocated, cheap settings within => Ok with peak <= 1.1 x 2^m KiB; iterated S2K: every count octet, allocation independent of count and password length; non-trivial = artifact measured; distinct = (base, field, value, tail, framing) / (family, n) / configuration");
     ctx.assume("time is not measured: linear work is decided on allocation volume and allocation count only; a worker that makes no progress for 120 s is inconclusive (exit 2)");
     let thorough = ctx.tier == Tier::Thorough;
     zoo::warm(&[Kind::Ed25519V4, Kind::Ed25519V6, Kind::RsaV4, Kind::P256V4]);
